@@ -160,6 +160,20 @@ def r1(ctx: Ctx, rep: Report, fams):
     rep.check(want <= targets, "C01.R1", "validator-targets", "goodwe/protocol.py",
               "command.validator resolves to the framing validators %s" % sorted(want),
               bad="command.validator no longer reaches %s" % sorted(want - targets))
+    # the validator of a command is bound once, in ProtocolCommand.__init__, from the constructor argument
+    base_init = prog.cls("ProtocolCommand").methods.get("__init__")
+    for fn in res.all_funcs():
+        for n in res._own_nodes(fn):
+            tgts = []
+            if isinstance(n, ast.Assign):
+                tgts = n.targets
+            elif isinstance(n, (ast.AnnAssign, ast.AugAssign)):
+                tgts = [n.target]
+            for t in tgts:
+                if isinstance(t, ast.Attribute) and t.attr == "validator":
+                    ok = fn is base_init and isinstance(n.value, ast.Name) and n.value.id in base_init.params
+                    rep.check(ok, "C01.R1", "validator-binding:%s" % fn.short, fn.loc(n), "validator bound from the constructor argument in ProtocolCommand.__init__",
+                              bad="%s re-binds a command's validator (%s): responses to that command are no longer checked by the framing validator" % (fn.short, norm(n)[:70]))
     oracle = validator_oracle(ctx)
     for cb in cbs:
         rep.analysed_add("functions", cb.qualname)
